@@ -108,6 +108,7 @@ func c11inputs(env sched.Env) *sched.Report {
 	var gen func(prefix []byte)
 	gen = func(prefix []byte) {
 		rep.Execs++
+		sched.Progress(nil)
 		if s, d := c11downstream(p, prefix); s != "" {
 			fail(s, d, c11case{Kind: "down", In: append([]byte{}, prefix...)})
 		}
@@ -140,6 +141,7 @@ func c11inputs(env sched.Env) *sched.Report {
 	for _, n := range names {
 		for _, as := range argsets {
 			rep.Execs++
+			sched.Progress(nil)
 			in := resp.Encode(resp.Cmd(append([]string{n}, as...)...))
 			if s, d := c11downstream(p, in); s != "" {
 				fail(s, d, c11case{Kind: "down", In: in})
@@ -150,6 +152,7 @@ func c11inputs(env sched.Env) *sched.Report {
 	for _, raw := range []string{"*1\r\n:1\r\n", "*2\r\n$3\r\nget\r\n$-1\r\n", "*-1\r\n", "*0\r\n", "$-1\r\n", "*1\r\n*1\r\n$3\r\nget\r\n", "*2\r\n$4\r\nscan\r\n:0\r\n", "+OK\r\n", "-ERR x\r\n", ":5\r\n",
 		"*2\r\n$4\r\nmget\r\n*0\r\n", "*3\r\n$4\r\neval\r\n$1\r\ns\r\n$-1\r\n", "*4\r\n$4\r\neval\r\n$1\r\ns\r\n$1\r\n1\r\n$-1\r\n", "*2\r\n$3\r\nGET\r\n$-1\r\n"} {
 		rep.Execs++
+		sched.Progress(nil)
 		if s, d := c11downstream(p, []byte(raw)); s != "" {
 			fail(s, d, c11case{Kind: "down", In: []byte(raw)})
 		}
@@ -167,6 +170,7 @@ func c11inputs(env sched.Env) *sched.Report {
 					continue // each of these allocates 512 MiB; quick tier keeps one per length
 				}
 				rep.Execs++
+				sched.Progress(nil)
 				in := []byte(full[:cut])
 				if s, d := c11downstream(p, in); s != "" {
 					fail(s, d, c11case{Kind: "down", In: in})
@@ -180,6 +184,7 @@ func c11inputs(env sched.Env) *sched.Report {
 		for _, count := range []int{1, 3, 1500} {
 			for _, depth := range []int{100, 127, 128, 129, 130, 1000, 1700} {
 				rep.Execs++
+				sched.Progress(nil)
 				nest := strings.Repeat("*1\r\n", depth) + "$1\r\na\r\n"
 				fresh := newDecoder(strings.NewReader(nest), 4096)
 				_, ferr := fresh.Decode()
@@ -201,6 +206,7 @@ func c11inputs(env sched.Env) *sched.Report {
 	depths := []int{1, 2, 8, 64, 1024, 100000, 1000000, 8000000}
 	for _, d := range depths {
 		rep.Execs++
+		sched.Progress(nil)
 		c := c11case{Kind: "nest", N: d}
 		r := sched.RunIsolated("C11/inputs", c, 120*time.Second, 1536)
 		if r.Sig != "" {
@@ -209,6 +215,7 @@ func c11inputs(env sched.Env) *sched.Report {
 	}
 	for _, d := range []int{2, 8, 40} {
 		rep.Execs++
+		sched.Progress(nil)
 		c := c11case{Kind: "nestbig", N: d}
 		// declared: d arrays of 2^20 elements; a flat message may declare one such array (56 MiB of slots)
 		r := sched.RunIsolated("C11/inputs", c, 120*time.Second, 256+4*64)
@@ -221,6 +228,7 @@ func c11inputs(env sched.Env) *sched.Report {
 	for _, unit := range []string{"\r\n", " \r\n", "\n", " ", "\r", "*0\r\n", "*-1\r\n", "$-1\r\n", "+\r\n", ":\r\n", "$0\r\n\r\n", "*1\r\n$0\r\n\r\n", "a\r\n"} {
 		for _, n := range []int{10, 10000, 4000000} {
 			rep.Execs++
+			sched.Progress(nil)
 			c := c11case{Kind: "repeat", Text: unit, N: n}
 			r := sched.RunIsolated("C11/inputs", c, 120*time.Second, 1536)
 			if r.Sig != "" {
@@ -310,6 +318,7 @@ func c11backend(env sched.Env) *sched.Report {
 			continue
 		}
 		rep.Execs++
+		sched.Progress(nil)
 		c := c11case{Kind: "errtext", Text: text}
 		sched.Progress(c)
 		if s, d := c11errText(text); s != "" {
@@ -346,6 +355,7 @@ func c11backend(env sched.Env) *sched.Report {
 	tryNodes := func(text string) {
 		for _, rev := range []bool{false, true} {
 			rep.Execs++
+			sched.Progress(nil)
 			c := c11case{Kind: "nodes", Text: text, Rev: rev}
 			if s, d := c11nodes(text, rev); s != "" {
 				fail(s, d, c)
@@ -378,6 +388,7 @@ func c11backend(env sched.Env) *sched.Report {
 	}
 	for _, text := range stexts {
 		rep.Execs++
+		sched.Progress(nil)
 		c := c11case{Kind: "nodes-refresh", Text: text}
 		if s, d := c11nodesRefresh(text); s != "" {
 			fail(s, d, c)
@@ -385,6 +396,7 @@ func c11backend(env sched.Env) *sched.Report {
 	}
 	for _, rng := range []string{"0-99999999999", "-5-99999999999", "0-9223372036854775807"} {
 		rep.Execs++
+		sched.Progress(nil)
 		c := c11case{Kind: "slotrange", Text: "a h:1 master - 0 0 1 connected " + rng + "\n"}
 		r := sched.RunIsolated("C11/inputs", c, 60*time.Second, 512)
 		if r.Sig != "" {
@@ -398,6 +410,7 @@ func c11backend(env sched.Env) *sched.Report {
 		resp.Array(resp.BulkS("5"), resp.BulkS("notarray")), resp.Array(resp.BulkS("5"), resp.Array(resp.Array(resp.BulkS("n")))), resp.Array(resp.BulkS("0"), resp.Array(), resp.BulkS("extra"))}
 	for _, sh := range shapes {
 		rep.Execs++
+		sched.Progress(nil)
 		c := c11case{Kind: "scan", In: resp.Encode(sh)}
 		if s, d := c11scanShape(sh); s != "" {
 			fail(s, d, c)
@@ -415,6 +428,7 @@ func c11backend(env sched.Env) *sched.Report {
 		for _, v := range vals {
 			for _, shape := range []string{"get", "hgetall", "mget"} {
 				rep.Execs++
+				sched.Progress(nil)
 				c := c11case{Kind: "framelike", Text: v, Rev: cps != nil && cps.Enable}
 				func() {
 					defer func() {
